@@ -20,9 +20,9 @@ def nested_archive(name: str, token: str) -> bytes:
         return corpus._zip(inner)
     if n.endswith(".7z"):
         return write_7z([{"name": "inner.txt", "data": inner[0][1]}], method="copy")
-    if n.endswith((".tar.gz", ".tgz", ".gz")):
+    if n.endswith((".tar.gz", ".tgz", ".gz", ".taz", ".tz")):
         return corpus._tar(inner, "w:gz")
-    if n.endswith((".tar.bz2", ".tbz2", ".bz2")):
+    if n.endswith((".tar.bz2", ".tbz2", ".bz2", ".tbz", ".tb2")):
         return corpus._tar(inner, "w:bz2")
     if n.endswith((".tar.xz", ".txz", ".xz")):
         return corpus._tar(inner, "w:xz")
